@@ -953,7 +953,18 @@ def _file_routes(x, texts, outs, stmts, accepted, outcome, m, fail, stats):
                 fail('file-route-differs:build-outcome', 'load_metamodel of the accepted files ends %s, input() + build_metamodel '
                      'of the same texts ends %s: %r' % (lout, outcome, [t[:200] for t in accepted]))
             elif lout == 'ok':
-                da, db = _safe_dump(m), _safe_dump(lm)
+                # the reference is built with the SAME (default) id generator as load_metamodel, which takes none: with the
+                # harness's IntegerGenerator a DEFAULTED unique id (1, 2, …) can equal a given key by accident and link a row
+                # that load_metamodel's random id does not link
+                try:
+                    ref_loader = x.ModelLoader()
+                    for t in accepted:
+                        ref_loader.input(t)
+                    ref = ref_loader.build_metamodel()
+                except Exception:
+                    ref = m
+                    stats['file_route_reference_with_integer_ids'] = 1
+                da, db = _safe_dump(ref), _safe_dump(lm)
                 if gen_schema.diff(da, db) and isinstance(da, dict) and isinstance(db, dict):
                     # load_metamodel has no id generator argument: unique ids that were DEFAULTED (an INSERT with fewer values
                     # than attributes) come from another generator; the statements (compared above) carry all given values
